@@ -486,6 +486,10 @@ fn judge_encoder_big<T: HLabel>(
     for (a, b) in case.abs.att.iter() {
         attackers[*b].insert(*a);
     }
+    let mut targets: Vec<Vec<usize>> = vec![Vec::new(); n];
+    for (a, b) in case.abs.att.iter() {
+        targets[*a].push(*b);
+    }
     let fam = family_of(enc);
     let rsat = RefSat::new(&case.abs);
     let is_member = |set: &[usize]| -> bool {
@@ -580,7 +584,28 @@ fn judge_encoder_big<T: HLabel>(
                 violations.push(v);
             }
         }
-        s.add_clause(violations.iter().copied());
+        // "some violation holds": a balanced tree of binary ORs (t -> c1 v c2) instead of one clause with
+        // tens of thousands of literals, which a CDCL solver handles badly
+        {
+            let mut layer: Vec<i32> = violations.clone();
+            while layer.len() > 1 {
+                let mut up: Vec<i32> = Vec::with_capacity(layer.len() / 2 + 1);
+                for pair in layer.chunks(2) {
+                    if pair.len() == 1 {
+                        up.push(pair[0]);
+                    } else {
+                        let t = fresh();
+                        s.add_clause([-t, pair[0], pair[1]]);
+                        up.push(t);
+                    }
+                }
+                layer = up;
+            }
+            match layer.first() {
+                Some(root) => s.add_clause([*root]),
+                None => s.add_clause(std::iter::empty::<i32>()),
+            }
+        }
         ctx.eval();
         match s.solve() {
             None => {
@@ -660,7 +685,7 @@ fn judge_encoder_big<T: HLabel>(
             if !rng.pct(density) || attackers[a].contains(&a) {
                 continue;
             }
-            let conflict = attackers[a].iter().any(|b| set[*b]) || (0..n).any(|b| set[b] && attackers[b].contains(&a));
+            let conflict = attackers[a].iter().any(|b| set[*b]) || targets[a].iter().any(|b| set[*b]);
             if !conflict {
                 set[a] = true;
             }
@@ -759,12 +784,20 @@ fn eval_big_case(ctx: &mut Ctx, case: &StaticCase, rng: &mut Rng, only: Option<(
                 if with_range && enc == Enc::Stable {
                     continue;
                 }
+                if with_range && case.abs.n > 1_000 && matches!(family_of(enc), Family::Cf | Family::Adm) {
+                    // tens of thousands of free arguments: refuting "a range variable is true outside the
+                    // range" costs one conflict per argument (half a minute per CNF); the range block of the
+                    // complete encoders is validated at this size, the others up to 140 arguments
+                    ctx.count("skipped/range-of-cf-adm-encoders-beyond-1000-arguments");
+                    continue;
+                }
                 if let Some((e, r)) = only {
                     if e != enc || r != with_range {
                         continue;
                     }
                 }
-                if let Some((sig, detail)) = judge_encoder_big(ctx, case, built, enc, with_range, rng) {
+                let verdict = judge_encoder_big(ctx, case, built, enc, with_range, rng);
+                if let Some((sig, detail)) = verdict {
                     let mut d = detail;
                     d["encoder"] = json!(enc.name());
                     d["with_range"] = json!(with_range);
@@ -866,6 +899,49 @@ pub fn run(ctx: &mut Ctx) {
         case.pres = crate::present::present(&case.abs, kind, &mut rng);
         ctx.case_begin(&json!({"family": fam, "i": i, "big": true}));
         crate::report::guarded(ctx, |ctx| eval_big_case(ctx, &case, &mut rng, None));
+    }
+    // declared sizes at and beyond 2^16 (almost all arguments isolated, attacks among the first ids, the
+    // ids around 65 535 and the last ones): per-argument tables indexed or stamped with 16-bit values
+    let huge_sizes: [usize; 5] = [65_535, 65_536, 65_537, 65_600, 70_000];
+    for (k, n) in huge_sizes.iter().enumerate() {
+        let reps: u64 = if q { 1 } else { 6 };
+        for rep in 0..reps {
+            let i = (k as u64) * 6 + rep;
+            if !ctx.mine(i * 3 + 1) {
+                continue;
+            }
+            if ctx.out_of_time() {
+                return;
+            }
+            let mut rng = Rng::from_path(&[ctx.seed, 10, 0x4096e, i]);
+            let n = *n;
+            let mut corners: Vec<usize> = vec![0, 1, 2, n - 3, n - 2, n - 1];
+            for c in [65_533usize, 65_534, 65_535, 65_536] {
+                if c < n {
+                    corners.push(c);
+                }
+            }
+            let mut att: Vec<(usize, usize)> = Vec::new();
+            for _ in 0..rng.range(3, 12) {
+                let a = *rng.pick(&corners);
+                let b = *rng.pick(&corners);
+                if !att.contains(&(a, b)) {
+                    att.push((a, b));
+                }
+            }
+            for _ in 0..rng.range(0, 4) {
+                att.push((rng.below(n), rng.below(n)));
+            }
+            let abs = Abs::new(n, att);
+            let mut text = format!("p af {}\n", n);
+            for (a, b) in abs.att.iter() {
+                text.push_str(&format!("{} {}\n", a + 1, b + 1));
+            }
+            let case = StaticCase { family: "huge-sparse".to_string(), abs, pres: Pres::Iccma { text } };
+            ctx.case_begin(&json!({"family": "huge-sparse", "n": n, "rep": rep}));
+            ctx.count("cases/huge-sparse-2^16-boundary");
+            crate::report::guarded(ctx, |ctx| eval_big_case(ctx, &case, &mut rng, None));
+        }
     }
     let mut gi = 0u64;
     for (family, count) in schedule {
